@@ -43,8 +43,8 @@ import (
 var c30fset = token.NewFileSet()
 var c30imp gotypes.Importer
 var c30conv *types.Converter
-var c30s2f = map[*gotypes.TypeName]*types.TypeName{}
-var c30f2s = map[*types.TypeName]*gotypes.TypeName{}
+var c30s2f = map[*gotypes.TypeName]*types.Named{}
+var c30f2s = map[*types.Named]*gotypes.TypeName{}
 
 func c30init() {
 	if c30imp == nil {
@@ -226,6 +226,17 @@ func (w *c30walker) walk(s gotypes.Type, f types.Type, path string) {
 			bad()
 			return
 		}
+		if f.NumMethods() > s.NumMethods() && s.NumExplicitMethods() == f.NumExplicitMethods() && s.NumEmbeddeds() == f.NumEmbeddeds() {
+			// the fork keeps one entry per embedded interface for a method that several of them declare
+			ids := map[string]bool{}
+			for i := 0; i < f.NumMethods(); i++ {
+				ids[f.Method(i).Id()] = true
+			}
+			if len(ids) == s.NumMethods() {
+				w.add("interface-overlapping-embedded-duplicates", "%s: %d methods, the fork lists %d (duplicates from overlapping embedded interfaces)", path, s.NumMethods(), f.NumMethods())
+				return
+			}
+		}
 		if s.NumMethods() != f.NumMethods() || s.NumExplicitMethods() != f.NumExplicitMethods() || s.NumEmbeddeds() != f.NumEmbeddeds() {
 			w.add("interface-counts", "%s: methods %d/%d/%d vs %d/%d/%d", path, s.NumMethods(), s.NumExplicitMethods(), s.NumEmbeddeds(), f.NumMethods(), f.NumExplicitMethods(), f.NumEmbeddeds())
 			return
@@ -305,15 +316,19 @@ func (w *c30walker) named(s *gotypes.Named, f *types.Named, path string) {
 		w.add("named-name", "%s: std %v fork %v", path, so, fo)
 		return
 	}
-	// conv_named_once on the real code: one fork object per standard object, and vice versa
-	if old, ok := c30s2f[so]; ok && old != fo {
-		w.add("named-two-fork-objects", "%s: %v converted to two different fork objects", path, so)
+	// conv_named_once on the real code: one fork *Named per standard type name, and vice versa,
+	// and the fork type name denotes exactly that *Named
+	if old, ok := c30s2f[so]; ok && old != f {
+		w.add("named-two-fork-objects", "%s: %v converted to two different fork *Named objects", path, so)
 	}
-	if old, ok := c30f2s[fo]; ok && old != so {
-		w.add("named-conflated", "%s: fork object %v stands for two standard objects", path, fo)
+	if old, ok := c30f2s[f]; ok && old != so {
+		w.add("named-conflated", "%s: fork type %v stands for two standard type names", path, fo)
 	}
-	c30s2f[so] = fo
-	c30f2s[fo] = so
+	if fo.Type() != types.Type(f) {
+		w.add("named-obj-type-mismatch", "%s: the fork type name %v denotes another *Named than the one found here", path, fo)
+	}
+	c30s2f[so] = f
+	c30f2s[f] = so
 	if w.seen[so] {
 		return
 	}
@@ -371,6 +386,11 @@ func c30compare(sp *gotypes.Package, fp *types.Package, add func(string, string,
 		if !so.Exported() {
 			continue
 		}
+		if _, ok := so.(*gotypes.Builtin); ok {
+			// package unsafe: built-in functions are not one of the four object kinds of the property
+			res.Tags = append(res.Tags, "builtin-skipped")
+			continue
+		}
 		nobj++
 		fo := fp.Scope().Lookup(name)
 		generic := false
@@ -379,7 +399,8 @@ func c30compare(sp *gotypes.Package, fp *types.Package, add func(string, string,
 			generic = c30generic(o.Type(), 0)
 		case *gotypes.TypeName:
 			if n, ok := o.Type().(*gotypes.Named); ok {
-				generic = n.TypeParams().Len() > 0
+				// generic types, and constraint interfaces (unions, ~T): generic declarations
+				generic = n.TypeParams().Len() > 0 || c30generic(n.Underlying(), 0)
 			} else {
 				generic = c30generic(o.Type(), 0)
 			}
@@ -573,7 +594,7 @@ func c30exec(op string) (res Result) {
 		}
 		// a different converter: the identity maps of the run-wide one do not apply
 		s2f, f2s := c30s2f, c30f2s
-		c30s2f, c30f2s = map[*gotypes.TypeName]*types.TypeName{}, map[*types.TypeName]*gotypes.TypeName{}
+		c30s2f, c30f2s = map[*gotypes.TypeName]*types.Named{}, map[*types.Named]*gotypes.TypeName{}
 		c30compare(sp, fp, add, &res)
 		c30s2f, c30f2s = s2f, f2s
 	case "syn":
